@@ -709,7 +709,7 @@ def rule_pb_threshold(ctx):
                               % (fi.qualname, norm(t)[:60], data_dep), fi.file, t.lineno))
             else:
                 r.ok(construct='%s:%s' % (fi.qualname, norm(t)[:40]), sample='%s: `%s` (constant tolerance)' % (fi.qualname, norm(t)[:60]))
-    r.floor = 2
+    r.floor = 1
     return r
 
 
